@@ -107,7 +107,7 @@ def finish_with(v: Verdict, ob: vplib.Obligations, corr_fail: List[dict], direct
 # ==========================================================================
 def check_C01(tier: str, seed: int) -> int:
     v = Verdict("C01", tier, seed, "proof")
-    ob = vplib.check_obligations("C01", expected=["C01_header", "C01_header_loaded", "C01_layer", "C01_tags", "C01_slice", "C01_palette", "C01_external", "C01_tileset_hdr", "C01_userdata", "C01_cel_hdr", "C01_layer_by_name_lowest", "C01_tag_by_name_lowest", "C01_get_tag_range", "C01_iteration"])
+    ob = vplib.check_obligations("C01", expected=["C01_header", "C01_header_loaded", "C01_layer", "C01_tags", "C01_slice", "C01_palette", "C01_external", "C01_tileset_hdr", "C01_userdata", "C01_cel_hdr", "C01_layer_by_name_lowest", "C01_tag_by_name_lowest", "C01_get_tag_range", "C01_iteration"], extra_files=["C01_e2e"])
     vplib.build_harness(["release"])
     w = Work("C01")
     try:
